@@ -34,6 +34,7 @@ pub struct RStats {
     pub thread_hops: u64,
     pub mutations: u64,
     pub vocabulary_churn: u64,
+    pub massive_duplicates: u64,
 }
 
 impl RStats {
@@ -60,6 +61,7 @@ impl RStats {
         self.thread_hops += o.thread_hops;
         self.mutations += o.mutations;
         self.vocabulary_churn += o.vocabulary_churn;
+        self.massive_duplicates += o.massive_duplicates;
     }
     pub fn pairs(&self) -> Vec<(&'static str, u64)> {
         vec![
@@ -87,6 +89,7 @@ impl RStats {
             ("caller_thread_hops", self.thread_hops),
             ("in_place_mutation_after_hashing", self.mutations),
             ("vocabulary_churn_fresh_names", self.vocabulary_churn),
+            ("massive_duplicates_in_one_step", self.massive_duplicates),
         ]
     }
 }
@@ -358,6 +361,24 @@ fn core(d: &Desc, ch: &mut Choices, st: &mut RStats, rp: &RealiseParams) -> Term
                     items.insert(at, twin);
                     st.duplicate += 1;
                 }
+            }
+            // massive duplication: a handful of distinct elements handed over dozens of times in one
+            // step (constructor, one push_components call, or - through the text routes - one parse)
+            if rp.duplicates && !items.is_empty() && items.len() <= 6 && ch.chance(1, 30) {
+                st.massive_duplicates += 1;
+                let total = [60usize, 130][ch.choose(2) as usize];
+                let base = items.len();
+                let mut many: Vec<Term> = Vec::with_capacity(total);
+                for i in 0..total {
+                    many.push(items[(i * 7 + i / base) % base].clone());
+                }
+                return if ch.chance(1, 2) {
+                    set_ctor(*k, many)
+                } else {
+                    let mut t = set_ctor(*k, vec![]);
+                    t.push_components(many).expect("set accepts components");
+                    t
+                };
             }
             let hand = if rp.capacity { 20 } else { 0 };
             match ch.weighted(&[40, 14, 12, hand, 12]) {
